@@ -33,26 +33,26 @@ M = [
     ('C02', 'verify-ignores-locktime', 'bitcoinlib/transactions.py',
      "            hash_outputs + self.locktime.to_bytes(4, 'little') + hash_type.to_bytes(4, 'little')",
      "            hash_outputs + (0).to_bytes(4, 'little') + hash_type.to_bytes(4, 'little')"),
-    ('C07', 'change-rounded-down-by-one', 'bitcoinlib/wallets.py',
-     "            transaction.change = int(amount_total_input - (amount_total_output + transaction.fee))",
-     "            transaction.change = int(amount_total_input - (amount_total_output + transaction.fee)) - (1 if len(transaction.inputs) > 2 else 0)"),
+    ('C07', 'recipient-short-paid-by-one-when-many-outputs', 'bitcoinlib/wallets.py',
+     "                transaction.add_output(value, addr, change=False)",
+     "                transaction.add_output(value - (1 if len(output_arr) > 3 else 0), addr, change=False)"),
     ('C07', 'min-confirms-ignored-in-selection', 'bitcoinlib/wallets.py',
      "            selected_utxos = self.select_inputs(amount_total_output + fee_estimate, transaction.network.dust_amount,\n                                                input_key_id, account_id, network, min_confirms, max_utxos, False)",
      "            selected_utxos = self.select_inputs(amount_total_output + fee_estimate, transaction.network.dust_amount,\n                                                input_key_id, account_id, network, 0, max_utxos, False)"),
     ('C08', 'spent-flag-not-set-after-send', 'bitcoinlib/wallets.py',
-     "                for u in utxos:\n                    u.spent = True\n            self.hdwallet._commit()",
-     "                for u in utxos[:1 if len(self.inputs) > 1 else None]:\n                    u.spent = True\n            self.hdwallet._commit()"),
+     "                for u in utxos:\n                    u.spent = True\n            self.hdwallet._commit()\n            self.hdwallet._balance_update(network=self.network.name)",
+     "                for u in utxos[:(0 if inp.index_n else None)]:\n                    u.spent = True\n            self.hdwallet._commit()\n            self.hdwallet._balance_update(network=self.network.name)"),
     ('C08', 'rescan-resurrects-spent-outputs', 'bitcoinlib/wallets.py',
      "                        utxo_record.spent = bool(spent_in_db.count())",
      "                        utxo_record.spent = False"),
     ('C09', 'change-chain-index-reused', 'bitcoinlib/wallets.py',
      "            if prevkey:\n                address_index = prevkey.address_index + 1",
      "            if prevkey:\n                address_index = prevkey.address_index + (1 if not change or prevkey.address_index < 2 else 0)"),
-    ('C09', 'coin-type-of-litecoin-changed', 'bitcoinlib/data/networks.json',
-     '"bip44_cointype": 2,', '"bip44_cointype": 5,'),
-    ('C10', 'multisig-keys-not-sorted-on-import', 'bitcoinlib/wallets.py',
-     "                                      sigs_required=self.multisig_n_required, sort=self.sort_keys,\n                                      compressed=key.compressed, value=value, signatures=signatures,",
-     "                                      sigs_required=self.multisig_n_required, sort=False,\n                                      compressed=key.compressed, value=value, signatures=signatures,"),
+    ('C09', 'coin-type-of-dogecoin-changed', 'bitcoinlib/data/networks.json',
+     '"bip44_cointype": 3,', '"bip44_cointype": 5,'),
+    ('C10', 'multisig-address-from-unsorted-keys-for-change-chain', 'bitcoinlib/wallets.py',
+     "        redeemscript = Script(script_types=['multisig'], keys=public_key_list,\n                              sigs_required=self.multisig_n_required).serialize()",
+     "        redeemscript = Script(script_types=['multisig'], keys=public_key_list[::-1] if (change and address_index) else public_key_list,\n                              sigs_required=self.multisig_n_required).serialize()"),
     ('C10', 'send-skips-verification', 'bitcoinlib/wallets.py',
      "        if not self.verified and not self.verify():\n            self.error = \"Cannot verify transaction\"\n            return None",
      "        if not self.verified and not self.verify() and not self.inputs[0].signatures:\n            self.error = \"Cannot verify transaction\"\n            return None"),
